@@ -275,8 +275,19 @@ type chunkIterator[T any] struct {
 	chunkSize int
 }
 
+// chunkPrealloc is the capacity allocated up front for a chunk: chunkSize, but bounded, so that a
+// chunkSize far beyond what the input yields ("everything in one chunk") does not cost, or fail, an
+// allocation of that size. Larger chunks grow by append.
+func chunkPrealloc(chunkSize int) int {
+	const max = 1024
+	if chunkSize > max {
+		return max
+	}
+	return chunkSize
+}
+
 func (iter *chunkIterator[T]) Next() ([]T, bool) {
-	chunk := make([]T, 0, iter.chunkSize)
+	chunk := make([]T, 0, chunkPrealloc(iter.chunkSize))
 	for {
 		item, ok := iter.inner.Next()
 		if !ok {
